@@ -140,8 +140,8 @@ func newMountFromLog(log map[string]string) Rule {
 		Base:            newBaseFromLog(log),
 		Qualifier:       newQualifierFromLog(log),
 		MountConditions: newMountConditionsFromLog(log),
-		Source:          log["srcname"],
-		MountPoint:      log["name"],
+		Source:          quoteAARE(log["srcname"]),
+		MountPoint:      quoteAARE(log["name"]),
 	}
 }
 
@@ -241,7 +241,7 @@ func newUmountFromLog(log map[string]string) Rule {
 		Base:            newBaseFromLog(log),
 		Qualifier:       newQualifierFromLog(log),
 		MountConditions: newMountConditionsFromLog(log),
-		MountPoint:      log["name"],
+		MountPoint:      quoteAARE(log["name"]),
 	}
 }
 
@@ -337,7 +337,7 @@ func newRemountFromLog(log map[string]string) Rule {
 		Base:            newBaseFromLog(log),
 		Qualifier:       newQualifierFromLog(log),
 		MountConditions: newMountConditionsFromLog(log),
-		MountPoint:      log["name"],
+		MountPoint:      quoteAARE(log["name"]),
 	}
 }
 
